@@ -48,3 +48,19 @@ package configs
 
 // package variables that are initialised once and never assigned again (checked by grep at contract-writing time)
 //@ global MinPriority == -2147483648 && MaxPriority == 2147483647
+
+// sibling queue names are unique after lower-casing (the scheduler registers queues under their lower-cased name): each
+// child's lowered name was not seen before at this level and is recorded
+//@ spec abstract lower(s string) string
+//@ func checkQueues(queue *QueueConfig, level int) (err error)
+//@   props C15
+//@   sweep
+//@   mode nopanic=off
+//@   at[lowered1] call strings.ToLower#1 after: assume ret == lower(arg0)
+//@   at[lowered2] call strings.ToLower#2 after: assume ret == lower(arg0)
+//@   at[lookup] call strings.ToLower#1: assert arg0 == child.Name
+//@   at[record] call strings.ToLower#2: assert arg0 == child.Name
+//@   loop 1: each queueMap[lower(child.Name)]
+//@   loop 1: each let k = lower(child.Name) in !iter(queueMap[k])
+//@   at[recurse] call configs.checkQueues#1: assert arg1 == wrap64(level + 1)
+//@   loop 2: each ncalls(configs.checkQueues) == iter(ncalls(configs.checkQueues)) + 1
